@@ -1,6 +1,7 @@
 """C09 - reorder / rename / MINC keep the physics.  Rules ORIENT, FRAME, PART."""
 import ast
 from ..core import AnalysisError, norm, dotted, call_name, walk_no_nested, is_self_attr
+from .. import roles
 from ..formula import check_formula, compare
 from .. import flow
 
@@ -232,14 +233,26 @@ def rule_part(run):
         else: run.violated(k2, 'fracture volume updated by `%s`' % norm(sc[0]), where=fi.where(sc[0]))
     else:
         run.unknown(key, 'statements not found', where=fi.where(lp))
-    inner = [n for n in ast.walk(lp) if isinstance(n, ast.For) and isinstance(n.target, ast.Name)
-             and isinstance(n.iter, ast.Subscript) and isinstance(n.iter.value, ast.Name) and n.iter.value.id in (raw, FR)]
+    # the loop over the matrix fractions, in either spelling: `for vf in F[1:]: m += 1 ...`  or  `for m, vf in enumerate(F[1:], 1): ...`
+    def loop_parts(n):
+        """(element name, fractions subscript, counter name or None, counter start or None)"""
+        it, tg = n.iter, n.target
+        if isinstance(it, ast.Call) and call_name(it) == 'enumerate' and it.args and isinstance(tg, ast.Tuple) and len(tg.elts) == 2 and \
+           all(isinstance(e, ast.Name) for e in tg.elts):
+            start = it.args[1] if len(it.args) > 1 else ([k.value for k in it.keywords if k.arg == 'start'] or [ast.Constant(value=0)])[0]
+            return tg.elts[1].id, it.args[0], tg.elts[0].id, (start.value if isinstance(start, ast.Constant) else None)
+        if isinstance(tg, ast.Name): return tg.id, it, None, None
+        return None, it, None, None
+    inner = []
+    for n in ast.walk(lp):
+        if isinstance(n, ast.For):
+            el, it, cnt, start = loop_parts(n)
+            if el and isinstance(it, ast.Subscript) and isinstance(it.value, ast.Name) and it.value.id in (raw, FR): inner.append((n, el, it, cnt, start))
     if len(inner) != 1:
         run.unknown('t2grid.minc :: matrix loop', 'loop over the matrix fractions not found', where=fi.where(lp)); return
-    il = inner[0]
-    vf = il.target.id
-    run.check(norm(il.iter.slice) == '1:', 't2grid.minc :: matrix continua use fractions [1:]',
-              'matrix loop iterates %s: a fraction is skipped or the fracture fraction is reused' % norm(il.iter), where=fi.where(il))
+    il, vf, frac_iter, enum_counter, enum_start = inner[0]
+    run.check(norm(frac_iter.slice) == '1:', 't2grid.minc :: matrix continua use fractions [1:]',
+              'matrix loop iterates %s: a fraction is skipped or the fracture fraction is reused' % norm(frac_iter), where=fi.where(il))
     mk = [c for c in ast.walk(il) if isinstance(c, ast.Call) and isinstance(c.func, ast.Name) and c.func.id == 't2block']
     if len(mk) == 1 and len(mk[0].args) >= 2:
         if 'blk.volume' in norm(mk[0].args[1]):
@@ -264,9 +277,18 @@ def rule_part(run):
                 blkvar = norm(n.targets[0])
         check_formula(run, 't2grid.minc :: nested connection joins previous and new continuum', fi, None,
                       '[lastblk, %s]' % (blkvar or 'mincblk'), 'connection does not join the previous continuum to the new one', node=a[0])
-        check_formula(run, 't2grid.minc :: nested connection distances d[m-1], d[m]', fi, None, '[d[m - 1], d[m]]',
+        # roles: D = the list started with [fracture_connection_distance], A = the list started with an expression in proximity(),
+        # M = the level counter (enumerate variable, or the name incremented by one in the loop)
+        Dn = roles.locals_where(fi.node, lambda v: isinstance(v, ast.List) and len(v.elts) == 1 and isinstance(v.elts[0], ast.Name)
+                                and v.elts[0].id == 'fracture_connection_distance')
+        An = roles.locals_where(fi.node, lambda v: isinstance(v, ast.List) and len(v.elts) == 1 and
+                                any(isinstance(c, ast.Call) and call_name(c) == 'proximity' for c in ast.walk(v.elts[0])))
+        Mn = [enum_counter] if enum_counter else [n.target.id for n in il.body if isinstance(n, ast.AugAssign) and isinstance(n.target, ast.Name)
+                                                   and isinstance(n.op, ast.Add) and norm(n.value) == '1']
+        D_, A_, M_ = (Dn[0] if len(Dn) == 1 else 'd'), (An[0] if len(An) == 1 else 'a'), (Mn[0] if len(Mn) == 1 else 'm')
+        check_formula(run, 't2grid.minc :: nested connection distances d[m-1], d[m]', fi, None, '[%s[%s - 1], %s[%s]]' % (D_, M_, D_, M_),
                       'nodal distances are not (d[m-1], d[m])', node=a[2])
-        check_formula(run, 't2grid.minc :: interface area = V * a[m-1]', fi, None, 'original_vol * a[m - 1]',
+        check_formula(run, 't2grid.minc :: interface area = V * a[m-1]', fi, None, 'original_vol * %s[%s - 1]' % (A_, M_),
                       'interface area is not original volume times specific area', node=a[3])
         adv = [n for n in il.body if False] or [n for n in ast.walk(il) if isinstance(n, ast.Assign) and norm(n.targets[0]) == 'lastblk']
         key = 't2grid.minc :: continua chained (lastblk advances)'
@@ -274,9 +296,16 @@ def rule_part(run):
         elif not adv: run.violated(key, 'lastblk is never advanced inside the loop: every matrix continuum is connected to '
                                    'the fracture block (a star), not nested fracture -> innermost matrix', where=fi.where(cn[0]))
         else: run.violated(key, 'lastblk is advanced to `%s`, not the new block' % norm(adv[0].value), where=fi.where(adv[0]))
-        inc = [n for n in il.body if isinstance(n, ast.AugAssign) and norm(n.target) == 'm']
-        run.check(len(inc) == 1 and isinstance(inc[0].op, ast.Add) and norm(inc[0].value) == '1' and il.body.index(inc[0]) == 0,
-                  't2grid.minc :: level counter m advances by 1 first', 'level counter update is %s' % [norm(i) for i in inc], where=fi.where(il))
+        k_m = 't2grid.minc :: level counter m advances by 1 first'
+        if enum_counter is not None:
+            # enumerate(F[1:], 1): the counter is 1 for the first matrix continuum, as after `m = 0 ... m += 1`
+            if enum_start == 1: run.ok(k_m, 'enumerate(..., 1)', where=fi.where(il))
+            elif enum_start is None: run.unknown(k_m, 'enumerate start not literal', where=fi.where(il))
+            else: run.violated(k_m, 'the level counter starts at %r for the first matrix continuum (1 expected: d[m-1], a[m-1] are indexed with it)' % enum_start, where=fi.where(il))
+        else:
+            inc = [n for n in il.body if isinstance(n, ast.AugAssign) and isinstance(n.target, ast.Name) and isinstance(n.op, ast.Add) and norm(n.value) == '1']
+            run.check(len(inc) == 1 and il.body.index(inc[0]) == 0,
+                      k_m, 'level counter update is %s' % [norm(i) for i in il.body if isinstance(i, ast.AugAssign)], where=fi.where(il))
     else:
         run.unknown('t2grid.minc :: nested connection', 't2connection construction not found', where=fi.where(il))
     # embed
